@@ -4956,12 +4956,12 @@ _dispatch_lane_wakeup(dispatch_lane_class_t dqu, dispatch_qos_t qos,
 DISPATCH_ALWAYS_INLINE
 static inline bool
 _dispatch_lane_push_waiter_should_wakeup(dispatch_lane_t dq,
-		dispatch_sync_context_t dsc)
+		uintptr_t dsc_flags)
 {
 	if (_dispatch_queue_is_thread_bound(dq)) {
 		return true;
 	}
-	if (dsc->dc_flags & DC_FLAG_ASYNC_AND_WAIT) {
+	if (dsc_flags & DC_FLAG_ASYNC_AND_WAIT) {
 		uint64_t dq_state = os_atomic_load2o(dq, dq_state, relaxed);
 		return _dispatch_async_and_wait_should_always_async(dq, dq_state);
 	}
@@ -4980,8 +4980,13 @@ _dispatch_lane_push_waiter(dispatch_lane_t dq, dispatch_sync_context_t dsc,
 		qos = 0;
 	}
 
+	// The sync context lives on the waiter's stack. Once it is pushed, a
+	// drainer that is still running can hand the queue to the waiter, which
+	// then returns: read what is needed from it before the push.
+	uintptr_t dsc_flags = dsc->dc_flags;
+
 	if (unlikely(_dispatch_queue_push_item(dq, dsc))) {
-		if (unlikely(_dispatch_lane_push_waiter_should_wakeup(dq, dsc))) {
+		if (unlikely(_dispatch_lane_push_waiter_should_wakeup(dq, dsc_flags))) {
 			return dx_wakeup(dq, qos, DISPATCH_WAKEUP_MAKE_DIRTY);
 		}
 
